@@ -148,7 +148,9 @@ def build(flavour="asan", verbose=False):
         lock.close()
 
 
-def _prune(flavour, keep, n=2):
+def _prune(flavour, keep, n=None):
+    # parallel mutant runs (tools/mutant_run.sh) set VERIF_KEEP_BUILDS so that they do not evict each other's builds
+    n = n or int(os.environ.get("VERIF_KEEP_BUILDS", "2"))
     ds = [os.path.join(BUILD_ROOT, d) for d in os.listdir(BUILD_ROOT) if d.startswith(flavour + "-")]
     ds.sort(key=lambda d: os.path.getmtime(d), reverse=True)
     for d in ds[n:]:
